@@ -28,7 +28,7 @@ func sizeGen(thresholds []int, big bool) *rapid.Generator[int] {
 	return rapid.Custom(func(t *rapid.T) int {
 		classes := []string{"zero", "tiny", "pool", "thr", "64k"}
 		if big {
-			classes = append(classes, "1m")
+			classes = append(classes, "1m", "8m")
 		}
 		switch rapid.SampledFrom(classes).Draw(t, "sizeclass") {
 		case "zero":
@@ -43,6 +43,9 @@ func sizeGen(thresholds []int, big bool) *rapid.Generator[int] {
 			return max(0, th+rapid.IntRange(-6, 2).Draw(t, "d"))
 		case "64k":
 			return rapid.IntRange(65530, 65540).Draw(t, "64k")
+		case "8m":
+			// around the 8 MiB buffer-recycle cap
+			return rapid.IntRange(8<<20-16, 8<<20+16).Draw(t, "8m")
 		default:
 			return rapid.IntRange(1<<20-8, 1<<20+8).Draw(t, "1m")
 		}
@@ -354,4 +357,15 @@ var specMem = pbt.Spec[Case]{
 
 func TestMem(t *testing.T) { pbt.Run(t, specMem) }
 
-func TestReplay(t *testing.T) { pbt.ReplayMain(t, pbt.Replayer(specMem), pbt.Replayer(specNet)) }
+var specMemBig = pbt.Spec[Case]{
+	Prop: "C01", Name: "mem-big",
+	Gen:   gen("mem", 3, true),
+	Check: checkMem,
+	Rule:  "as [mem] with sequences of up to 3 messages whose sizes also come from the 1 MiB ± 8 and 8 MiB ± 16 classes (the buffer pool's recycle cap)",
+}
+
+func TestMemBig(t *testing.T) { pbt.Run(t, specMemBig) }
+
+func TestReplay(t *testing.T) {
+	pbt.ReplayMain(t, pbt.Replayer(specMem), pbt.Replayer(specNet), pbt.Replayer(specMemBig))
+}
